@@ -153,7 +153,7 @@ func ins(kind int, cols string, tuples ...[]any) op {
 	}
 	o.SQL = fmt.Sprintf("%s INTO t(%s) VALUES %s", verb, cols, strings.Join(sqlRows, ","))
 	o.Name = pfx + strings.Join(names, "")
-	if cols != "id,u,v" && cols != "id,u" && cols != "a,b,u" && cols != "id,f" && cols != "f,u" {
+	if cols != "id,u,v" && cols != "id,u" && cols != "a,b,u" && cols != "id,f" && cols != "f,u" && cols != "id,a,b" {
 		o.Name = pfx + "[" + cols + "]" + strings.Join(names, "")
 	}
 	if kind == kInsertNothing {
@@ -339,7 +339,19 @@ func schemas() []*schema {
 			upd("U(*:k=1)", "UPDATE t SET k = 1", func(row) bool { return true }, setCol("k", int64(1)), "k"),
 			del("D(id=1)", "DELETE FROM t WHERE id = 1", whereEq("id", int64(1)), "id"),
 		}}
-	return []*schema{s1, s2, s3, s4, s5, s6, s7, s8, s9}
+	// composite unique index: statements that change only the leading / only the last indexed column of a row
+	s10 := &schema{Name: "S10", DDL: []string{"CREATE TABLE t(id INTEGER, a INTEGER, b INTEGER, PRIMARY KEY id)", "CREATE UNIQUE INDEX ON t(a, b)"}, Ops: []op{
+		ins(kInsert, "id,a,b", i(1, 1, 7)),
+		ins(kInsert, "id,a,b", i(2, 2, 7)),
+		ins(kInsert, "id,a,b", i(3, 1, 8)),
+		ins(kInsert, "id,a,b", i(4, 1, 7)), // unique clash with row 1
+		upd("U(id=2:a=1)", "UPDATE t SET a = 1 WHERE id = 2", whereEq("id", int64(2)), setCol("a", int64(1)), "id", "a"), // leading column only: clashes with (1,7)
+		upd("U(id=3:b=7)", "UPDATE t SET b = 7 WHERE id = 3", whereEq("id", int64(3)), setCol("b", int64(7)), "id", "b"), // last column only: clashes with (1,7)
+		ins(kUpsert, "id,a,b", i(2, 1, 7)), // row 2 moved onto (1,7)
+		upd("U(id=1:a=2)", "UPDATE t SET a = 2 WHERE id = 1", whereEq("id", int64(1)), setCol("a", int64(2)), "id", "a"), // clashes with (2,7)
+		del("D(id=1)", "DELETE FROM t WHERE id = 1", whereEq("id", int64(1)), "id"),
+	}}
+	return []*schema{s1, s2, s3, s4, s5, s6, s7, s8, s9, s10}
 }
 
 // ---------------------------------------------------------------- database under test
